@@ -627,7 +627,7 @@ theorem rename_output_graph (ti : TypeInfo) (p : Program) (hok : RenOutOK x a b 
     intro f bs h; simpa [noStar, Bind.mapRefs] using h
   have H : SimHyp ti (ti.renameOutput x a b) p (renameOutput x a b p) id (renameOutputIn x a b)
       (GOut x a b) (fun _ env => mapVals (renOutR x a b) env) (OOut x a b) (renOutR x a b)
-      (fun c => pipeOKOut x b p c = true) (IOut x) (JOut x b) (fun _ => True) := by
+      (fun c => pipeOKOut x b p c = true) (IOut x) (JOut x b) (fun _ => True) (fun _ _ => true) := by
     refine { hfind1 := ?_, hfind0 := ?_, hrel := fun _ _ _ _ => trivial, hF := ?_, hcalls := ?_,
              hGid := ?_, hGdec := ?_, hfirst := ?_, hO0 := ?_, hOs := ?_, o0 := ?_, o0s := ?_,
              o1 := ?_, o2 := ?_, c5 := ?_, c6 := ?_, c7 := ?_ }
@@ -659,6 +659,7 @@ theorem rename_output_graph (ti : TypeInfo) (p : Program) (hok : RenOutOK x a b 
       · split <;> simp
     · intro pipe hg
       have hparts := pipeOKOut_parts x b hg
+      rw [show (pipe.calls.filter (fun k => (fun (_ : Callable) (_ : String) => true) pipe k.id)) = pipe.calls from filter_true' _]
       unfold renameOutputIn GOut
       by_cases hn : pipe.name = x
       · simp only [hn, if_true]
@@ -719,7 +720,9 @@ theorem rename_output_graph (ti : TypeInfo) (p : Program) (hok : RenOutOK x a b 
       · simp only [cleanR]
         exact clean_envEntries x _ hcl
     · -- c5
-      intro pipe self sib k d id hg hi hsib hk hd
+      intro pipe self sib sib' k d id hg hi hsib hag _ hk hd
+      have hs' := sibAgree_true hag
+      subst hs'
       have hparts := pipeOKOut_parts x b hg
       have hkm := (call_mem pipe id k hk).1
       have hns := hparts.2.2.1 k hkm
@@ -763,7 +766,9 @@ theorem rename_output_graph (ti : TypeInfo) (p : Program) (hok : RenOutOK x a b 
         rw [hG, expandWild_noStar _ _ _ _ (hnsmap _ _ hns)]
         exact hgoal
     · -- c6
-      intro d ins sib hg hp hi hsib
+      intro d ins sib sib' hg hp hi hsib hag
+      have hs' := sibAgree_true hag
+      subst hs'
       have hparts := pipeOKOut_parts x b hg
       have hper := fun bd hbd r hr =>
         (perRef_out x a b p hab d ins sib hg hi hsib r (mem_graphRefs_ret d bd hbd r hr)).2
@@ -836,7 +841,9 @@ theorem rename_output_graph (ti : TypeInfo) (p : Program) (hok : RenOutOK x a b 
         simp only [OOut, hn, false_and, if_false]
         exact (hstruct _).symm
     · -- c7
-      intro d ins sib hg hp hi hsib
+      intro d ins sib sib' hg hp hi hsib hag
+      have hs' := sibAgree_true hag
+      subst hs'
       have hparts := pipeOKOut_parts x b hg
       have hper := fun r hr =>
         (perRef_out x a b p hab d ins sib hg hi hsib r (mem_graphRefs_retain d r hr)).2
@@ -866,7 +873,7 @@ theorem rename_output_graph (ti : TypeInfo) (p : Program) (hok : RenOutOK x a b 
       = renNodeOut x a b := by
     funext n
     simp [nodeMap, renNodeOut, OOut]
-  rw [← hmap]
+  rw [← deepGraphKeep_true ti p, ← hmap]
   apply sim_graph H
   · intro t ht
     have htop : (pipeOKOut x b p (topPipe t) = true
@@ -886,7 +893,7 @@ theorem rename_output_graph (ti : TypeInfo) (p : Program) (hok : RenOutOK x a b 
         intro bd hbd
         simp [Bind.mapRefs, mapRefs_noRefs _ _ (htop.2 bd hbd)]
       rw [h1, h2]
-    refine ⟨?_, ?_, htop.1.1, ?_⟩
+    refine ⟨?_, ?_, htop.1.1, ?_, rfl⟩
     · rw [hp', hGt]; exact ht
     · rw [hGt]
       have hne : (topPipe t).name ≠ x := by simp [topPipe, Ne.symm hx]
